@@ -12,13 +12,14 @@ func init() { register("C19", propC19) }
 func propC19() *Property {
 	return &Property{
 		ID:      "C19",
-		Decides: "R19.1 on a server session every successful return of Read/Write that can hand over bytes passes the per-user upload/download counter with the returned count (path-sensitive, all return paths incl. the left-over buffer path); R19.2 the per-user counters are registered under the user name of the cipher that authenticated the session; R19.3 the quota gate: the open response is queued only on the quota-OK edge, the refusal edge records statusQuotaExhausted and closes, checkQuota reads this session's policy and the metric group of the same user; R19.4 roll-up: in doRollUp each history record contributes to exactly one sink on every path through the loop body (kept as is / starts a new bucket / added to the open bucket), the open bucket is flushed after the loop, and roll-up writes only into records it allocated itself (records shared with snapshots are never mutated); R19.5 loading a dump adds max(0, stored - current) and never stores the value.",
+		Decides: "R19.1 on a server session every successful return of Read/Write that can hand over bytes passes the per-user upload/download counter with the returned count (path-sensitive, all return paths incl. the left-over buffer path); R19.2 the per-user counters are registered under the user name of the cipher that authenticated the session; R19.3 the quota gate: the open response is queued only on the quota-OK edge, the refusal edge records statusQuotaExhausted and closes, checkQuota reads this session's policy and the metric group of the same user; R19.4 roll-up: in doRollUp each history record contributes to exactly one sink on every path through the loop body (kept as is / starts a new bucket / added to the open bucket), the open bucket is flushed after the loop, and roll-up writes only into records it allocated itself (records shared with snapshots are never mutated); R19.5 loading a dump adds max(0, stored - current) and never stores the value.; R19.6 every server session is created with its per-user upload/download counters attached (constructor, from the policy's user name; both creation sites pass the authenticated user's policy), so bytes an application writes before the session's first segment is processed are counted and the fields are not written concurrently with Read/Write (finding F8, repaired in /repo 8af67b3)",
 		NotDecided: "totals over arbitrary timestamp histories, ordering after truncation, window sums, concurrent sessions racing with accounting (F8: the counters are attached by the input goroutine; bytes written before that are not counted — a timing fact), partial multi-chunk writes that fail midway (F10).",
 		Rules: []Rule{
 			{ID: "R19.1", Floor: 2, Text: "Session.Read/Write: server session, counter attached: no successful return with a possibly positive count is reachable without counter.Add(n)", Run: r19_1},
 			{ID: "R19.2", Floor: 2, Text: "RegisterMetric group = UserMetricGroupFormat of (*s.block.Load()).BlockContext().UserName", Run: r19_2},
 			{ID: "R19.3", Floor: 3, Text: "quota gate in inputData / checkQuota", Run: r19_3},
 			{ID: "R19.4", Floor: 3, Text: "doRollUp linear use, final flush, no mutation of existing records", Run: r19_4},
+			{ID: "R19.6", Floor: 6, Text: "the per-user counters are attached when a server session is created (before Accept can hand it out); other stores are the nil-guarded lazy path; creation sites pass the authenticated user's policy", Run: r19_6},
 			{ID: "R19.5", Floor: 1, Text: "loadCounterFromMetricPB: Add(max(0, src-dst))", Run: r19_5},
 		},
 	}
@@ -496,4 +497,150 @@ func r19_5(c *RC) {
 	} else {
 		c.Bad("load-monotone", fn.Pos(), "loading a dump is not Add(max(0, stored-current)) (max form=%v, direct store to value=%v): a reload can decrease or double a counter", good, valueStore)
 	}
+}
+
+// r19_6: the per-user counters of a server session are attached before the
+// session can be used by the application (finding F8): the constructor stores
+// both counters when the authenticated user is known, the group name is that
+// user's, and every server-side creation site passes the authenticated
+// user's policy. Every other store of the two fields is the nil-guarded lazy
+// registration in Session.input.
+func r19_6(c *RC) {
+	p := c.P
+	ctor := p.Fn(protoPkg, "newSessionWithServerUserPolicy")
+	if ctor == nil {
+		c.Anchor("newSessionWithServerUserPolicy")
+		return
+	}
+	for _, fname := range []string{"uploadBytes", "downloadBytes"} {
+		f := p.Field(protoPkg, "Session", fname)
+		if f == nil {
+			c.Anchor("Session." + fname)
+			continue
+		}
+		inCtor := false
+		for _, s := range p.FieldStores(f) {
+			st, ok := s.Instr.(*ssa.Store)
+			if !ok {
+				continue
+			}
+			key := fname + "-store@" + fnName(s.Fn)
+			switch {
+			case s.Fn == ctor:
+				// value: RegisterMetric(Sprintf(UserMetricGroupFormat, policy.Name()), ...)
+				good := false
+				if call, ok := st.Val.(*ssa.Call); ok && calleeName(call) == "RegisterMetric" {
+					for _, l := range Leaves(call.Call.Args[0], func(v ssa.Value) bool { _, ok := v.(*ssa.Call); return ok }) {
+						if sp, ok := l.(*ssa.Call); ok && calleeID(sp) == "fmt.Sprintf" {
+							if usesPolicyName(sp, ctor) {
+								good = true
+							}
+						}
+					}
+				}
+				// guarded by !isClient and policy.Name() != ""
+				var conds []string
+				for _, ce := range controlConds(ctor, st.Block()) {
+					conds = append(conds, describe(ce.If.Cond))
+				}
+				if good {
+					inCtor = true
+					c.OKH(key, s.Pos(), "attached in the constructor from the policy's user name (under %v)", conds)
+				} else {
+					c.Bad(key, s.Pos(), "the constructor attaches %s to a group that is not derived from the policy's user name", fname)
+				}
+			case s.Fn.Name() == "input":
+				// lazy path: guarded by field == nil
+				guarded := false
+				for _, ce := range controllingEdges(st.Block()) {
+					if bo, ok := ce.If.Cond.(*ssa.BinOp); ok && bo.Op == token.EQL && ce.Idx == 0 && isNilConst(bo.Y) && sameField(fieldOrigin(bo.X), f) {
+						guarded = true
+					}
+				}
+				if guarded {
+					c.OK(key, s.Pos(), "lazy registration, only when the constructor did not know the user")
+				} else {
+					c.Bad(key, s.Pos(), "Session.input overwrites %s without the nil guard: a counter attached at creation is replaced while the application may be using it", fname)
+				}
+			default:
+				c.Bad(key, s.Pos(), "%s stores Session.%s: the field is read without a lock by Read/Write, so only the constructor (before publication) and the nil-guarded first segment may set it", fnName(s.Fn), fname)
+			}
+		}
+		if !inCtor {
+			c.Bad(fname+"-attached-at-creation", ctor.Pos(), "server sessions are created without their per-user %s counter: the session is handed to the application (Accept) before its first segment is processed, so an application that writes first races with the input goroutine on the field and its bytes are not counted against the user", fname)
+		}
+	}
+	// every server-side creation passes the authenticated user's policy
+	for _, s := range p.CallsToFn(ctor) {
+		cl := s.Instr.(ssa.CallInstruction)
+		if k, ok := cl.Common().Args[1].(*ssa.Const); !ok || k.Value == nil || k.Value.String() != "false" {
+			continue // client sessions / generic wrapper
+		}
+		key := "creation-knows-user@" + fnName(s.Fn)
+		good := false
+		var how []string
+		for _, l := range Leaves(cl.Common().Args[3], nil) {
+			switch x := l.(type) {
+			case *ssa.Call:
+				if calleeName(x) == "Policy" {
+					good = true
+					how = append(how, "authentication.Policy()")
+				}
+			case *ssa.UnOp:
+				if f := fieldOrigin(x); f != nil && f.Name() == "serverUserPolicy" {
+					good = true
+					how = append(how, "serverUserPolicy")
+				}
+			}
+			if f := fieldOrigin(l); f != nil && f.Name() == "serverUserPolicy" {
+				good = true
+			}
+		}
+		if good {
+			c.OKH(key, s.Pos(), "the policy passed derives from the authenticated user (%s)", strings.Join(how, ", "))
+		} else {
+			c.Bad(key, s.Pos(), "%s creates a server session with policy %s, which is not the authenticated user's: its counters cannot be attached at creation", fnName(s.Fn), describe(cl.Common().Args[3]))
+		}
+	}
+}
+
+// usesPolicyName: a fmt.Sprintf call whose variadic slice holds policy.Name() of the constructor's policy parameter.
+func usesPolicyName(sp *ssa.Call, ctor *ssa.Function) bool {
+	if len(sp.Call.Args) < 2 {
+		return false
+	}
+	found := false
+	for _, l2 := range Leaves(sp.Call.Args[1], nil) {
+		a, ok := l2.(*ssa.Alloc)
+		if !ok {
+			continue
+		}
+		for _, r := range *a.Referrers() {
+			ia, ok := r.(*ssa.IndexAddr)
+			if !ok {
+				continue
+			}
+			for _, u := range *ia.Referrers() {
+				st, ok := u.(*ssa.Store)
+				if !ok {
+					continue
+				}
+				for _, l3 := range Leaves(st.Val, nil) {
+					if nc, ok := l3.(*ssa.Call); ok && calleeName(nc) == "Name" {
+						for _, l4 := range Leaves(nc.Call.Args[0], nil) {
+							if prm, ok := l4.(*ssa.Parameter); ok && prm.Name() == "policy" {
+								found = true
+							}
+							if u2, ok := l4.(*ssa.UnOp); ok {
+								if al, ok := u2.X.(*ssa.Alloc); ok && al.Comment == "policy" {
+									found = true
+								}
+							}
+						}
+					}
+				}
+			}
+		}
+	}
+	return found
 }
